@@ -96,9 +96,12 @@ func (a *SimAPI) get(ctx context.Context, c client.WithWatch, key client.ObjectK
 	switch a.decide("get", obj) {
 	case APIErrBefore, APIErrAfter:
 		a.Run.Fault("api.get.err")
+		a.Run.S.Log("api", "get %s %s -> injected error", kindOf(obj), key.Name)
 		return injected("get")
 	}
-	return c.Get(ctx, key, obj)
+	err := c.Get(ctx, key, obj)
+	a.Run.S.Log("api", "get %s %s -> %v", kindOf(obj), key.Name, err != nil)
+	return err
 }
 
 func (a *SimAPI) list(ctx context.Context, c client.WithWatch, list client.ObjectList, opts ...client.ListOption) error {
@@ -129,6 +132,7 @@ func (a *SimAPI) list(ctx context.Context, c client.WithWatch, list client.Objec
 	if err := c.List(ctx, list, pass...); err != nil {
 		return err
 	}
+	a.Run.S.Log("api", "list %s", kindOf(list))
 	items, err := meta.ExtractList(list)
 	if err != nil {
 		return err
@@ -212,8 +216,10 @@ func (a *SimAPI) write(op string, obj client.Object, do func() error) error {
 		return injected(op)
 	}
 	if err := do(); err != nil {
+		a.Run.S.Log("api", "%s %s %s -> %v", op, kindOf(obj), obj.GetName(), err)
 		return err
 	}
+	a.Run.S.Log("api", "%s %s %s -> ok", op, kindOf(obj), obj.GetName())
 	a.written(op, obj)
 	return nil
 }
